@@ -7,13 +7,13 @@
    Model/SymTerm.v; [prims] interprets the abstract pointwise primitives (sqrt, cbrt) and is universally
    quantified (any function respecting ==).  A measure is tied to bctpy's code by correspondence (harness):
    the extracted [run_measure] is run on the same matrices as the implementation. *)
-From Coq Require Import QArith List Arith Permutation.
+From Coq Require Import QArith List Arith Permutation ZArith Lia.
 From BCT Require Import Base.Mat Base.SumQ Model.SymTerm Proofs.SymTerm Proofs.SymTermLib.
 From BCT Require Import Gen.SymTermGen Model.SymTermGenRun Proofs.SymTermGenThm Model.SymTermKinds Proofs.SymTermKinds.
 (* statement-level models of other properties (only Required: C03 Distance, C16 Components, C08 Between, C15 Core, C18 Walks / Linear) *)
 From BCT Require Import Model.Linear Proofs.EquivModelsLinear Proofs.SymTermFull.
 From BCT Require Model.Distance Proofs.DistanceBase Proofs.DistanceBin Proofs.DistanceOther Model.Components Model.Between Model.Core Proofs.Core Model.Walks.
-From BCT Require Proofs.EquivModels Proofs.EquivModelsComp Proofs.EquivModelsBetw Proofs.EquivModelsCore Proofs.EquivModelsWalks.
+From BCT Require Proofs.EquivModels Proofs.EquivModelsEff Proofs.EquivModelsComp Proofs.EquivModelsBetw Proofs.EquivModelsCore Proofs.EquivModelsWalks.
 Import ListNotations.
 Open Scope Q_scope.
 
@@ -67,53 +67,41 @@ Theorem C04_library_equivariant : forall id k A ci ks,
   measure_kind id k = kind_by_id id /\ equivariant_as prims n p (kind_by_id id) (measure_by_id id k) A ci ks.
 Proof. exact (library_equivariant_kinded prims prims_proper n p Hp). Qed.
 
-(* instances, by output kind (each term's kind is checked by the Examples at the end) *)
-Theorem C04_degrees_und : forall A ci ks i,
-  eval_v prims n t_degrees_und (pm p A) (pv p ci) ks i == eval_v prims n t_degrees_und A ci ks (p i).
-Proof. exact (measure_equivariant_vector prims prims_proper n p Hp t_degrees_und). Qed.
-Theorem C04_clustering_coef_bu : forall A ci ks i,
-  eval_v prims n t_clustering_coef_bu (pm p A) (pv p ci) ks i == eval_v prims n t_clustering_coef_bu A ci ks (p i).
-Proof. exact (measure_equivariant_vector prims prims_proper n p Hp t_clustering_coef_bu). Qed.
-Theorem C04_transitivity_bu : forall A ci ks,
-  eval_s prims n t_transitivity_bu (pm p A) (pv p ci) ks == eval_s prims n t_transitivity_bu A ci ks.
-Proof. exact (measure_equivariant_scalar prims prims_proper n p Hp t_transitivity_bu). Qed.
-Theorem C04_matching_ind : forall t, In t [t_matching_in; t_matching_out; t_matching_all] -> forall A ci ks i j,
-  eval_m prims n t (pm p A) (pv p ci) ks i j == eval_m prims n t A ci ks (p i) (p j).
-Proof. intros t _. exact (measure_equivariant_matrix prims prims_proper n p Hp t). Qed.
-Theorem C04_gtom : forall steps A ci ks i j,
-  eval_m prims n (t_gtom steps) (pm p A) (pv p ci) ks i j == eval_m prims n (t_gtom steps) A ci ks (p i) (p j).
-Proof. intros steps. exact (measure_equivariant_matrix prims prims_proper n p Hp (t_gtom steps)). Qed.
-Theorem C04_distance_bin : forall A ci ks i j,
-  eval_m prims n t_distance_bin (pm p A) (pv p ci) ks i j == eval_m prims n t_distance_bin A ci ks (p i) (p j).
-Proof. exact (measure_equivariant_matrix prims prims_proper n p Hp t_distance_bin). Qed.
-Theorem C04_kcore_bu : forall A ci k i j,
-  eval_m prims n (t_kcore true) (pm p A) (pv p ci) [k] i j == eval_m prims n (t_kcore true) A ci [k] (p i) (p j).
-Proof. intros A ci k. exact (measure_equivariant_matrix prims prims_proper n p Hp (t_kcore true) A ci [k]). Qed.
-Theorem C04_participation_coef : forall W ci ks i,
-  eval_v prims n t_participation_coef (pm p W) (pv p ci) ks i == eval_v prims n t_participation_coef W ci ks (p i).
-Proof. exact (measure_equivariant_vector prims prims_proper n p Hp t_participation_coef). Qed.
-Theorem C04_module_degree_zscore : forall W ci ks i,
-  eval_v prims n t_module_degree_zscore (pm p W) (pv p ci) ks i == eval_v prims n t_module_degree_zscore W ci ks (p i).
-Proof. exact (measure_equivariant_vector prims prims_proper n p Hp t_module_degree_zscore). Qed.
-Theorem C04_components : forall A ci ks,
-  (forall i j, eval_m prims n t_components_rel (pm p A) (pv p ci) ks i j == eval_m prims n t_components_rel A ci ks (p i) (p j)) /\
-  eval_s prims n t_number_of_components (pm p A) (pv p ci) ks == eval_s prims n t_number_of_components A ci ks.
+(* named instances of the library, each in the reading of its kind (C04_library_equivariant pins the kinds); ONE theorem:
+   they are the generic theorem applied to thirteen pieces of syntax and add no strength to it.  What ties a piece of
+   syntax to bctpy's code is the correspondence; for the routines that are searches the statement-level models are
+   treated below (C04Models). *)
+Theorem C04_library_instances : forall A ci ks,
+  (forall i, eval_v prims n t_degrees_und (pm p A) (pv p ci) ks i == eval_v prims n t_degrees_und A ci ks (p i)) /\
+  (forall i, eval_v prims n t_clustering_coef_bu (pm p A) (pv p ci) ks i == eval_v prims n t_clustering_coef_bu A ci ks (p i)) /\
+  eval_s prims n t_transitivity_bu (pm p A) (pv p ci) ks == eval_s prims n t_transitivity_bu A ci ks /\
+  (forall t, In t [t_matching_in; t_matching_out; t_matching_all] -> forall i j,
+     eval_m prims n t (pm p A) (pv p ci) ks i j == eval_m prims n t A ci ks (p i) (p j)) /\
+  (forall steps i j, eval_m prims n (t_gtom steps) (pm p A) (pv p ci) ks i j == eval_m prims n (t_gtom steps) A ci ks (p i) (p j)) /\
+  (forall i j, eval_m prims n t_distance_bin (pm p A) (pv p ci) ks i j == eval_m prims n t_distance_bin A ci ks (p i) (p j)) /\
+  (forall k i j, eval_m prims n (t_kcore true) (pm p A) (pv p ci) [k] i j == eval_m prims n (t_kcore true) A ci [k] (p i) (p j)) /\
+  (forall i, eval_v prims n t_participation_coef (pm p A) (pv p ci) ks i == eval_v prims n t_participation_coef A ci ks (p i)) /\
+  (forall i, eval_v prims n t_module_degree_zscore (pm p A) (pv p ci) ks i == eval_v prims n t_module_degree_zscore A ci ks (p i)) /\
+  ((forall i j, eval_m prims n t_components_rel (pm p A) (pv p ci) ks i j == eval_m prims n t_components_rel A ci ks (p i) (p j)) /\
+   eval_s prims n t_number_of_components (pm p A) (pv p ci) ks == eval_s prims n t_number_of_components A ci ks) /\
+  (forall flag, eval_s prims n (t_assortativity_wei flag) (pm p A) (pv p ci) ks == eval_s prims n (t_assortativity_wei flag) A ci ks) /\
+  (forall i, eval_v prims n t_betweenness_bin (pm p A) (pv p ci) ks i == eval_v prims n t_betweenness_bin A ci ks (p i)) /\
+  (* coreness: a family of programs indexed by the number K of peeling levels (K = N-1 in the code) *)
+  (forall und K i, eval_v prims n (t_kcoreness und K) (pm p A) (pv p ci) ks i == eval_v prims n (t_kcoreness und K) A ci ks (p i)).
 Proof.
-  intros. split; [intros|].
-  - exact (measure_equivariant_matrix prims prims_proper n p Hp t_components_rel A ci ks i j).
-  - exact (measure_equivariant_scalar prims prims_proper n p Hp t_number_of_components A ci ks).
+  intros A ci ks.
+  pose proof (measure_equivariant_scalar prims prims_proper n p Hp) as S.
+  pose proof (measure_equivariant_vector prims prims_proper n p Hp) as V.
+  pose proof (measure_equivariant_matrix prims prims_proper n p Hp) as M.
+  split; [exact (V t_degrees_und A ci ks)|]. split; [exact (V t_clustering_coef_bu A ci ks)|].
+  split; [exact (S t_transitivity_bu A ci ks)|]. split; [intros t _; exact (M t A ci ks)|].
+  split; [intros steps; exact (M (t_gtom steps) A ci ks)|]. split; [exact (M t_distance_bin A ci ks)|].
+  split; [intros k; exact (M (t_kcore true) A ci [k])|]. split; [exact (V t_participation_coef A ci ks)|].
+  split; [exact (V t_module_degree_zscore A ci ks)|].
+  split; [split; [exact (M t_components_rel A ci ks)|exact (S t_number_of_components A ci ks)]|].
+  split; [intros flag; exact (S (t_assortativity_wei flag) A ci ks)|]. split; [exact (V t_betweenness_bin A ci ks)|].
+  intros und K. exact (V (t_kcoreness und K) A ci ks).
 Qed.
-Theorem C04_assortativity_wei : forall flag W ci ks,
-  eval_s prims n (t_assortativity_wei flag) (pm p W) (pv p ci) ks == eval_s prims n (t_assortativity_wei flag) W ci ks.
-Proof. intros flag. exact (measure_equivariant_scalar prims prims_proper n p Hp (t_assortativity_wei flag)). Qed.
-
-Theorem C04_betweenness_bin : forall A ci ks i,
-  eval_v prims n t_betweenness_bin (pm p A) (pv p ci) ks i == eval_v prims n t_betweenness_bin A ci ks (p i).
-Proof. exact (measure_equivariant_vector prims prims_proper n p Hp t_betweenness_bin). Qed.
-(* coreness: a family of programs indexed by the number K of peeling levels (K = N-1 in the code) *)
-Theorem C04_kcoreness : forall und K A ci ks i,
-  eval_v prims n (t_kcoreness und K) (pm p A) (pv p ci) ks i == eval_v prims n (t_kcoreness und K) A ci ks (p i).
-Proof. intros und K. exact (measure_equivariant_vector prims prims_proper n p Hp (t_kcoreness und K)). Qed.
 
 (* LAPACK measures.  The renumbered solution solves the renumbered equation (every A, every d, every lambda) ... *)
 Theorem C04_pagerank_equation : forall A r d,
@@ -215,6 +203,27 @@ Theorem C04_reachdist_model_equivariant : forall A : mat Z,
   exists R' D' R D, reachdist n (pm p A) = Some (R', D') /\ reachdist n A = Some (R, D) /\
     forall i j, (i < n)%nat -> (j < n)%nat -> D' i j = D (p i) (p j) /\ R' i j = R (p i) (p j).
 Proof. exact (EquivModels.reachdist_model_equivariant n p Hp). Qed.
+
+(* the GLOBAL efficiencies built on those loops: mean of 1/D over the ordered pairs of distinct nodes ([ext_eq]: equal as
+   nan / inf / a rational up to ==); rout_efficiency also returns the pairwise matrix *)
+Theorem C04_efficiency_model_equivariant :
+  (forall A : mat Z, exists e' e, efficiency_bin n (pm p A) = Some e' /\ efficiency_bin n A = Some e /\ EquivModelsEff.ext_eq e' e) /\
+  (forall W : mat Q, (forall i j, (i < n)%nat -> (j < n)%nat -> 0 <= W i j) ->
+     exists e' e, efficiency_wei n (pm p W) = Some e' /\ efficiency_wei n W = Some e /\ EquivModelsEff.ext_eq e' e) /\
+  (forall (nlog : Q -> Q) (A : mat Q) (tr : transform),
+     (forall w, 0 < w -> w <= 1 -> 0 <= nlog w) -> (forall i j, (i < n)%nat -> (j < n)%nat -> 0 <= A i j) ->
+     (tr = TLog -> forall i j, (i < n)%nat -> (j < n)%nat -> A i j <= 1) ->
+     EquivModelsEff.ext_eq (fst (rout_efficiency nlog n (pm p A) tr)) (fst (rout_efficiency nlog n A tr)) /\
+     forall i j, (i < n)%nat -> (j < n)%nat ->
+       snd (rout_efficiency nlog n (pm p A) tr) i j == snd (rout_efficiency nlog n A tr) (p i) (p j)).
+Proof.
+  split; [exact (EquivModelsEff.efficiency_bin_model_equivariant n p Hp)|split].
+  - exact (EquivModelsEff.efficiency_wei_model_equivariant n p Hp).
+  - exact (EquivModelsEff.rout_efficiency_model_equivariant n p Hp).
+Qed.
+Theorem C04_ext_eq_unfold : forall a b, EquivModelsEff.ext_eq a b <->
+  match a, b with ENaN, ENaN => True | EInf, EInf => True | EFin x, EFin y => x == y | _, _ => False end.
+Proof. intros. reflexivity. Qed.
 
 (* --- C16: get_components (edge list in row-major order, set-merging loop).  Refused together (asymmetric input);
    otherwise the PARTITION is transported, the number of components is the same, and the label numbers and comp_sizes
@@ -426,6 +435,50 @@ Example C04_nonvacuous_eigen :
   is_eigenvector idp 2 (of_rows 0 [[0;1];[1;0]]) (of_list 0 [1;1]) 1.
 Proof. intros i Hi. destruct i as [|[|i]]; [vm_compute; reflexivity|vm_compute; reflexivity|inversion Hi as [|? H1]; inversion H1 as [|? H2]; inversion H2]. Qed.
 
+
+(* the statement-level models on the same 4-node example (path 0-1-2 + isolated node 3, renumbered by exl): the distance
+   matrices and the betweenness vector are permuted; get_components finds the same two blocks but NUMBERS them differently
+   ([1;1;1;2] sizes [3;1] against [2;1;2;2] sizes [1;3]): that is the renaming sigma of C04_get_components_model_equivariant *)
+Definition exAz : list (list Z) := [[0;1;0;0];[1;0;1;0];[0;1;0;0];[0;0;0;0]]%Z.
+Definition exAzp : list (list Z) := [[0;0;0;1];[0;0;0;0];[0;0;0;1];[1;0;1;0]]%Z.
+Example C04_models_nonvacuous :
+  (forall i j, (i < 4)%nat -> (j < 4)%nat -> of_rows 0%Z exAzp i j = pm (ext_perm exl) (of_rows 0%Z exAz) i j) /\
+  Distance.run_dbin exAz = Some [[Some 0; Some 1; Some 2; None]; [Some 1; Some 0; Some 1; None]; [Some 2; Some 1; Some 0; None]; [None; None; None; Some 0]]%nat /\
+  Distance.run_dbin exAzp = Some [[Some 0; None; Some 2; Some 1]; [None; Some 0; None; None]; [Some 2; None; Some 0; Some 1]; [Some 1; None; Some 1; Some 0]]%nat /\
+  Components.run_gc exAz = Some ([1; 1; 1; 2], [3; 1])%nat /\ Components.run_gc exAzp = Some ([2; 1; 2; 2], [1; 3])%nat /\
+  Between.run_bc_bin exAz = Some [0; 2; 0; 0] /\ Between.run_bc_bin exAzp = Some [0; 0; 0; 2].
+Proof.
+  split; [|vm_compute; repeat split; reflexivity].
+  intros i j Hi Hj. do 4 (destruct i as [|i]; [do 4 (destruct j as [|j]; [reflexivity|]); lia|]). lia.
+Qed.
+Example C04_linear_nonvacuous :
+  let A := of_rows 0 [[0;1];[1;0]] in
+  symmetric_mat 2 A /\ nonneg_mat 2 A /\ irreducible 2 A /\
+  nonneg_vec 2 (fun _ => 1) /\ eigvec 2 A (fun _ => 1) 1 /\ ~ (fun _ : nat => 1) 0%nat == 0 /\
+  (forall i, (i < 2)%nat -> mvecQ 2 (pr_B 2 A (1#2)) (fun _ => 1#2) i == pr_b (1#2) (uniform 2) i).
+Proof.
+  cbv zeta.
+  assert (C : forall i, (i < 2)%nat -> i = 0%nat \/ i = 1%nat) by (intros; lia).
+  split; [intros i j Hi Hj; destruct (C i Hi) as [->| ->]; destruct (C j Hj) as [->| ->]; vm_compute; reflexivity|].
+  split; [intros i j Hi Hj; destruct (C i Hi) as [->| ->]; destruct (C j Hj) as [->| ->]; vm_compute; discriminate|].
+  split.
+  - intros i j Hi Hj. destruct (C i Hi) as [->| ->]; destruct (C j Hj) as [->| ->].
+    + apply reach_refl.
+    + apply (reach_step 2 _ 0%nat 0%nat 1%nat); [apply reach_refl|lia|vm_compute; reflexivity].
+    + apply (reach_step 2 _ 1%nat 1%nat 0%nat); [apply reach_refl|lia|vm_compute; reflexivity].
+    + apply reach_refl.
+  - split; [intros i _; vm_compute; discriminate|].
+    split; [intros i Hi; destruct (C i Hi) as [->| ->]; vm_compute; reflexivity|].
+    split; [vm_compute; discriminate|].
+    intros i Hi; destruct (C i Hi) as [->| ->]; vm_compute; reflexivity.
+Qed.
+
+(* every kind pinned by the table is the kind computed from the syntax, on the whole range of ids and for several k *)
+Example C04_kinds_nonvacuous :
+  forallb (fun id => forallb (fun k => Nat.eqb (measure_kind id k) (kind_by_id id)) [0;1;2;3;7]%nat) (seq 0 54) = true /\
+  map kind_by_id [0; 6; 14; 23; 30; 52]%nat = [1; 0; 2; 2; 0; 2]%nat.
+Proof. split; vm_compute; reflexivity. Qed.
+
 Print Assumptions C04_sumQ_reindex.
 Print Assumptions C04_symterm_equivariant.
 Print Assumptions C04_prog_equivariant.
@@ -434,19 +487,7 @@ Print Assumptions C04_measure_equivariant_vector.
 Print Assumptions C04_measure_equivariant_matrix.
 Print Assumptions C04_measure_equivariant_kinded.
 Print Assumptions C04_library_equivariant.
-Print Assumptions C04_degrees_und.
-Print Assumptions C04_clustering_coef_bu.
-Print Assumptions C04_transitivity_bu.
-Print Assumptions C04_matching_ind.
-Print Assumptions C04_gtom.
-Print Assumptions C04_distance_bin.
-Print Assumptions C04_kcore_bu.
-Print Assumptions C04_participation_coef.
-Print Assumptions C04_module_degree_zscore.
-Print Assumptions C04_components.
-Print Assumptions C04_assortativity_wei.
-Print Assumptions C04_betweenness_bin.
-Print Assumptions C04_kcoreness.
+Print Assumptions C04_library_instances.
 Print Assumptions C04_pagerank_equation.
 Print Assumptions C04_eigenvector_equation.
 Print Assumptions C04_pagerank_full.
@@ -460,6 +501,8 @@ Print Assumptions C04_distance_bin_model_equivariant.
 Print Assumptions C04_distance_wei_model_equivariant.
 Print Assumptions C04_breadthdist_model_equivariant.
 Print Assumptions C04_reachdist_model_equivariant.
+Print Assumptions C04_efficiency_model_equivariant.
+Print Assumptions C04_ext_eq_unfold.
 Print Assumptions C04_get_components_model_equivariant.
 Print Assumptions C04_number_of_components_model_equivariant.
 Print Assumptions C04_betweenness_model_equivariant.
